@@ -352,8 +352,12 @@ def first_iteration_head(e, segs, head):
 def default_struct(v):
     if v[0] == 'lv':
         return True      # loop-carried result object: its fields are checked by the no-store rule of the dispatcher table (C03)
+    if v[0] == 'adt' and v[2] == 'None' and not v[3]:
+        return True           # a hand-written Default: `tlang: None`
     if v[0] == 'adt':
         return all((x[0] == 'pure' and x[1] == 'default') or default_struct(x) for x in v[3])
+    if v[0] == 'pure' and not v[2] and re.search(r'(BTreeMap::<K, V>|BTreeSet::<T>|Vec::<T>|String|VecDeque::<T>)::new$', v[1]):
+        return True           # the empty collection a hand-written Default builds
     return v[0] == 'pure' and v[1] in ('default', 'Vec::new')
 
 
